@@ -2,17 +2,9 @@
 package latchsim
 
 import (
-	"fmt"
 	"testing"
 
-	"github.com/tikv/client-go/v2/internal/latch"
+	"github.com/tikv/client-go/v2/verifsim/simkit"
 )
 
-func TestSim(t *testing.T) {
-	n := 0
-	yieldHook = func(s string) { n++ }
-	l := latch.NewLatches(2)
-	lk := l.VerifGenLock(1, [][]byte{[]byte("a")})
-	l.VerifAcquire(lk)
-	fmt.Println("hook calls", n)
-}
+func TestSim(t *testing.T) { simkit.Main(t, Engine{}) }
